@@ -28,7 +28,14 @@ class Stage:
         raise NotImplementedError
 
     def call_worker(self, inq, ev, on_cb, outq):
-        raise NotImplementedError
+        """The real worker, started with the arguments the real entry point gives it (extracted), its queue / shutdown
+        event replaced by the probe's; the per-item action is the same hook run_entry / run_serial use (on_cb(key))."""
+        from vlib import mpmodel
+        n = self.item_counts["quick"][0]
+        return mpmodel.call_worker_as_entry_does(lambda: self.run_entry(n, 2, on_cb), inq, ev, outq)
+
+    def item_key(self, item):
+        return item
 
     make_item = None
     serial_items = None
@@ -58,11 +65,8 @@ class VisitLeaves(Stage):
     def run_serial(self, n_items, on_item):
         self._pyramid(n_items).visit_leaves(lambda pos, tile: on_item(pos), parallel=1)
 
-    def item_key(self, item):
-        return item[0]
-
-    def call_worker(self, inq, ev, on_cb, outq):
-        tp._mp_visit_worker(inq, ev, lambda *a: on_cb(tuple(a)))
+    def message_key(self, msg):
+        return msg[0]
 
 
 class Transform(Stage):
@@ -79,11 +83,8 @@ class Transform(Stage):
         depth = {1: 0, 5: 1, 21: 2, 85: 3}[n_items]
         ttr._do_a_transform("PIO", depth, lambda: "BUF", lambda buf, pos, pin, pout: on_item(pos), parallel=1)
 
-    def item_key(self, item):
-        return item
-
-    def call_worker(self, inq, ev, on_cb, outq):
-        ttr._transform_mp_worker(inq, ev, "PIN", "POUT", lambda: "BUF", lambda buf, pos, pin, pout: on_cb(pos))
+    def message_key(self, msg):
+        return msg
 
 
 class _FakeImage:
@@ -138,10 +139,9 @@ class MultiTan(Stage):
         self._proc(n_items, on_item).tile(_FakePio(), parallel=1)
 
     def item_key(self, item):
-        return item[0].k
+        return item[0].k if isinstance(item, tuple) else item
 
-    def call_worker(self, inq, ev, on_cb, outq):
-        tmt._mp_tile_worker(inq, ev, _FakePio(), {})
+    message_key = item_key
 
     @staticmethod
     def make_item(k, hook):
@@ -171,10 +171,9 @@ class MultiWcs(Stage):
         self._proc(n_items, on_item).tile(_FakePio(), "REPROJECT", parallel=1)
 
     def item_key(self, item):
-        return item[0].k
+        return item[0].k if isinstance(item, tuple) else item
 
-    def call_worker(self, inq, ev, on_cb, outq):
-        tmw._mp_tile_worker(inq, ev, _FakePio(), "REPROJECT", {})
+    message_key = item_key
 
     @staticmethod
     def make_item(k, hook):
